@@ -72,11 +72,19 @@ func runGraphCase(c c05GraphCase) []Finding {
 		if !st.m.cyclic() {
 			out = append(out, st.queries(0)...)
 		}
-	case "immediate":
+	case "immediate", "immediate+detect":
 		for i := 0; i < c.N; i++ {
+			if c.Mode == "immediate+detect" {
+				// the whole-graph question asked between the adds: an add that is refused (it would close a
+				// cycle) leaves an acyclic graph, and the answer must say so - also from a warm cache
+				out = append(out, st.apply(gop{Kind: "detect"})...)
+			}
 			out = append(out, st.apply(gop{Kind: "add", N: i, Deps: adj[i]})...)
 			if st.diverged {
 				break
+			}
+			if c.Mode == "immediate+detect" {
+				out = append(out, st.apply(gop{Kind: "detect"})...)
 			}
 		}
 		if !st.diverged {
@@ -137,9 +145,12 @@ func c05Graphs(r *mc.Report, n int, orderDev int, shard, nshards int, lite ...bo
 			continue
 		}
 		for _, desc := range []bool{false, true} {
-			for _, mode := range []string{"deferred", "immediate"} {
+			for _, mode := range []string{"deferred", "immediate", "immediate+detect"} {
 				for _, rev := range []bool{false, true} {
-					if len(lite) > 0 && lite[0] && (desc || mode == "immediate") {
+					if mode == "immediate+detect" && (desc || rev) && n > 3 {
+						continue
+					}
+					if len(lite) > 0 && lite[0] && (desc || mode != "deferred") {
 						continue // order deviations on 4 nodes: deferred adds, ascending lists, both base orders
 					}
 					run(c05GraphCase{N: n, Mask: mask, Desc: desc, Mode: mode, Reverse: rev})
@@ -470,7 +481,7 @@ var _ = graph.NewDependencyGraph
 func init() {
 	mc.Register(&mc.Check{
 		Prop:        "C05",
-		Rule:        "graph component: ALL 2^16 digraphs on 4 labelled nodes (self-loops included; all 2^9 on 3 nodes too) x {AddProviderDeferred all + DetectCycles (asked twice), AddProvider one by one} x dependency-list order {ascending, descending} x canonical / reversed base map order, plus every single non-identity permutation of one map range (order deviation 1) for all 3-node graphs (quick) / additionally all 4-node graphs with deferred adds and ascending lists (thorough); verdicts compared with a colour-DFS on the plain digraph, reported paths checked edge by edge. Container: all digraphs on <=3 services x every per-target dependency form (plain / keyed / group; In-struct and positional consumers; In-struct also with every non-group edge declared optional, and with the registrations made in ascending and descending order, so that consumers are registered before and after what they consume; group fields also carrying an additional name tag) x 3 uniform lifetimes, and all digraphs on 4 services x uniform forms; Build verdict, error class through BuildError, reported path, and termination of resolving every identity; plus cycles running through a two-output registration (multiple returns / result object / two aliases x plain / keyed / group edge x lifetime) one of whose outputs was removed before Build. distinct = distinct (size, forms, verdict) classes.",
+		Rule:        "graph component: ALL 2^16 digraphs on 4 labelled nodes (self-loops included; all 2^9 on 3 nodes too) x {AddProviderDeferred all + DetectCycles (asked twice), AddProvider one by one, AddProvider one by one with DetectCycles asked before and after every add} x dependency-list order {ascending, descending} x canonical / reversed base map order, plus every single non-identity permutation of one map range (order deviation 1) for all 3-node graphs (quick) / additionally all 4-node graphs with deferred adds and ascending lists (thorough); verdicts compared with a colour-DFS on the plain digraph, reported paths checked edge by edge. Container: all digraphs on <=3 services x every per-target dependency form (plain / keyed / group; In-struct and positional consumers; In-struct also with every non-group edge declared optional, and with the registrations made in ascending and descending order, so that consumers are registered before and after what they consume; group fields also carrying an additional name tag) x 3 uniform lifetimes, and all digraphs on 4 services x uniform forms; Build verdict, error class through BuildError, reported path, and termination of resolving every identity; plus cycles running through a two-output registration (multiple returns / result object / two aliases x plain / keyed / group edge x lifetime) one of whose outputs was removed before Build. distinct = distinct (size, forms, verdict) classes.",
 		Assume:      []string{"the property's 'randomly beyond 4 nodes' part is not covered: the claim is all graphs with <= 4 nodes"},
 		MinOutcomes: 4,
 		Jobs: func(tier string) []mc.Job {
